@@ -34,13 +34,15 @@ def cases(draw):
     big = draw(st.integers(0, 9)) == 0
     if draw(st.integers(0, 11)) == 0:
         # a long disparity axis (more samples than an 8-bit index holds); the volume is a seeded pseudo-random field
-        nd = draw(st.sampled_from([255, 256, 257, 300, 513, 700]))
+        nd = draw(st.sampled_from([101, 150, 201, 255, 256, 257, 300, 513, 700]))
         subpix = draw(st.sampled_from([1, 4]))
         d0 = draw(st.sampled_from([-350, -128, 0, 3]))
         return {"ny": draw(st.integers(1, 3)), "nx": draw(st.integers(1, 4)),
                 "disps": [d0 + k / subpix for k in range(nd)] if subpix != 1 else [d0 + k for k in range(nd)],
                 "subpix": subpix, "type": draw(st.sampled_from(["min", "max"])), "warm": draw(st.sampled_from([None, None, "same", "other"])), "tile": None, "patches": [],
-                "long": {"seed": draw(st.integers(0, 10 ** 6)), "nan": draw(st.sampled_from([0.0, 0.1, 0.6]))},
+                "long": {"seed": draw(st.integers(0, 10 ** 6)), "nan": draw(st.sampled_from([0.0, 0.1, 0.6])),
+                         # the best cost may be attained several times, far apart on the axis: the lowest disparity wins
+                         "ties": draw(st.sampled_from([1, 1, 2, 3]))},
                 "invalid": draw(st.sampled_from([-9999, "NaN"])), "nconf": 0, "mask_vals": [0]}
     nd = draw(st.integers(1, 7))
     subpix = draw(st.sampled_from([1, 1, 2, 4]))
@@ -91,7 +93,8 @@ def materialise(p):
         # one strict winner per pixel, anywhere on the axis (often beyond position 255)
         for r in range(ny):
             for c in range(nx):
-                cv[r, c, rs.randint(0, nd)] = -5.0 if p["type"] == "min" else 99.0
+                for _ in range(p["long"].get("ties", 1)):
+                    cv[r, c, rs.randint(0, nd)] = -5.0 if p["type"] == "min" else 99.0
         return cv, np.zeros((ny, nx), dtype=np.uint16), {}
     best_inf = "-inf" if p["type"] == "min" else "inf"
     sub_ = lambda x: [sub_(y) for y in x] if isinstance(x, list) else (best_inf if x == "best-inf" else x)  # noqa: E731
@@ -188,6 +191,8 @@ def body(ctx: Ctx, p: dict) -> None:
     classes = []
     if p.get("warm"):
         classes.append("object-served-before-" + p["warm"] + "-measure")
+    if p.get("long") and p["long"].get("ties", 1) > 1:
+        classes.append("long-axis-with-distant-ties")
     if max(p["ny"], p["nx"]) >= 99:
         classes.append("crosses-block-boundary")
     if p["type"] == "max":
